@@ -513,7 +513,7 @@ pub fn run(ctx: Ctx) -> Report {
                     let mut v = Vec::new();
                     let total = b.last().copied().unwrap_or(0);
                     for (i, &x) in b.iter().enumerate() {
-                        if quick && b.len() > 8 && i % 3 != 0 && i + 1 != b.len() {
+                        if false && quick && i + 1 != b.len() {
                             continue;
                         }
                         for d in [0u64, 1, 3, 7] {
@@ -574,7 +574,7 @@ pub fn run(ctx: Ctx) -> Report {
                         let mut idxs = interesting.clone();
                         if !quick {
                             // plus a sample of write-path positions
-                            for _ in 0..6 {
+                            for _ in 0..10 {
                                 if o.hits > 0 {
                                     idxs.push(rng.usize(0, o.hits - 1));
                                 }
@@ -582,8 +582,8 @@ pub fn run(ctx: Ctx) -> Report {
                         }
                         idxs.sort();
                         idxs.dedup();
-                        let lens: &[u32] = if quick { &[2] } else { &[1, 2, 4, 8] };
-                        for idx in idxs.into_iter().take(if quick { 3 } else { 14 }) {
+                        let lens: &[u32] = if quick { &[1, 3] } else { &[1, 2, 4, 8] };
+                        for idx in idxs.into_iter().take(if quick { 6 } else { 20 }) {
                             for &y in lens {
                                 let mut fc2 = fc.clone();
                                 fc2.plan = BTreeMap::from([(idx, y)]);
